@@ -113,7 +113,7 @@ func ParseCFF2(src []byte) (*CFF2, error) {
 
 	if len(fdIndex) > 1 {
 		// parse the fdSelect
-		if L := len(src); L < int(tp.fdSelect) {
+		if L := len(src); tp.fdSelect < 0 || L < int(tp.fdSelect) {
 			return nil, fmt.Errorf("reading fdSelect: EOF: expected length: %d, got %d", tp.fdSelect, L)
 		}
 		out.fdSelect, _, err = parseFdSelect(src[tp.fdSelect:], len(out.Charstrings))
